@@ -379,6 +379,8 @@ func runRefactorsFor(prop, repo, vdir string) map[string]any {
 			}
 			if code == 0 {
 				out[i] = rres{id, "silent"}
+			} else if code == 2 && expectedUndecided(vdir, id, prop) {
+				out[i] = rres{id, "undecided (documented in refactors/EXPECTED_UNDECIDED.txt)"}
 			} else {
 				out[i] = rres{id, fmt.Sprintf("FALSE ALARM (exit %d)", code)}
 			}
@@ -397,4 +399,19 @@ func runRefactorsFor(prop, repo, vdir string) map[string]any {
 		fmt.Printf("  refactorings: %d behaviour-preserving changes, silent=%d false-alarms=%d\n", len(out), silent, alarms)
 	}
 	return map[string]any{"changes": len(out), "silent": silent, "false_alarms": alarms, "results": out}
+}
+
+// expectedUndecided: refactors/EXPECTED_UNDECIDED.txt lists "<group>/<ref> <property> <reason>".
+func expectedUndecided(vdir, id, prop string) bool {
+	data, err := os.ReadFile(filepath.Join(vdir, "refactors", "EXPECTED_UNDECIDED.txt"))
+	if err != nil {
+		return false
+	}
+	for _, l := range strings.Split(string(data), "\n") {
+		f := strings.Fields(l)
+		if len(f) >= 2 && f[0] == id && f[1] == prop {
+			return true
+		}
+	}
+	return false
 }
